@@ -26,6 +26,11 @@ pub fn bump() -> u64 {
     COUNTER.fetch_add(1, Ordering::Relaxed)
 }
 
+/// observes how many other handles exist: interleaving-dependent
+pub fn shared_elsewhere(a: &std::sync::Arc<u64>) -> bool {
+    std::sync::Arc::strong_count(a) > 1
+}
+
 pub fn now() -> std::time::Instant {
     std::time::Instant::now()
 }
